@@ -21,7 +21,7 @@ use mithril_common::{
 use serde::{Deserialize, Serialize};
 use serde_json::json;
 
-use crate::world::{World, protocol_parameters};
+use crate::world::World;
 
 #[derive(Clone, Copy, Debug, Serialize, Deserialize, PartialEq, Eq, Hash, PartialOrd, Ord)]
 pub enum Ty {
@@ -76,6 +76,8 @@ pub enum Ev {
     /// the current open message of this type reaches its expiry date
     Expire(Ty),
     Restart,
+    /// the operator restarts the node with the other protocol-parameter configuration
+    Reconfigure,
 }
 
 static DIR_COUNTER: AtomicU64 = AtomicU64::new(0);
@@ -239,10 +241,15 @@ impl Checker {
                             replay: ctx.clone(),
                         });
                     }
-                    if c.metadata.protocol_parameters != protocol_parameters() {
+                    if let Some(expected) = w.reference_parameters(epoch)
+                        && c.metadata.protocol_parameters != expected
+                    {
                         out.push(Violation {
                             key: "C14/wrong-protocol-parameters".into(),
-                            what: format!("certificate {} carries parameters {:?}", c.hash, c.metadata.protocol_parameters),
+                            what: format!(
+                                "certificate {} of epoch {epoch} carries parameters {:?}; the parameters recorded for that epoch (write-once, two epochs ahead) are {:?}",
+                                c.hash, c.metadata.protocol_parameters, expected
+                            ),
                             replay: ctx.clone(),
                         });
                     }
@@ -309,7 +316,7 @@ impl Checker {
         }
         let ms = b.build_multi_signer();
         let registered: BTreeSet<String> = w
-            .signers_with_stake_of(&w.reference_signers(*c.epoch))
+            .signers_with_stake_of(&w.reference_signers(*c.epoch), *c.epoch)
             .iter()
             .map(|s| s.party_id.clone())
             .collect();
@@ -320,7 +327,7 @@ impl Checker {
                 indices.extend(s.won_indexes.iter().copied());
             }
         }
-        let k = protocol_parameters().k;
+        let k = w.reference_parameters(*c.epoch).map(|p| p.k).unwrap_or(c.metadata.protocol_parameters.k);
         if (indices.len() as u64) < k {
             out.push(Violation {
                 key: "C14/sealed-without-quorum".into(),
@@ -489,13 +496,15 @@ pub async fn apply(w: &World, ev: &Ev, log: &mut Vec<String>) {
                 let _ = w.open_messages.update_open_message(&om).await;
             }
         }
-        Ev::Restart => unreachable!("Restart is handled by apply_mut"),
+        Ev::Restart | Ev::Reconfigure => unreachable!("Restart / Reconfigure are handled by apply_mut"),
     }
 }
 
 pub async fn apply_mut(w: &mut World, ev: &Ev, log: &mut Vec<String>) {
     if matches!(ev, Ev::Restart) {
         w.restart().await;
+    } else if matches!(ev, Ev::Reconfigure) {
+        w.reconfigure().await;
     } else {
         apply(&*w, ev, log).await;
     }
@@ -523,7 +532,7 @@ pub async fn canon(w: &World) -> String {
             let mut signers: Vec<String> = c.metadata.signers.iter().map(|s| s.party_id.clone()).collect();
             signers.sort();
             json!({"i": idx(&c.hash), "e": *c.epoch, "t": if c.is_genesis() {"genesis".to_string()} else {format!("{:?}", c.signed_entity_type())},
-                   "p": idx(&c.previous_hash), "s": signers.len()})
+                   "p": idx(&c.previous_hash), "s": signers.len(), "k": c.metadata.protocol_parameters.k})
         })
         .collect();
     certs.sort_by_key(|v| v["i"].as_i64());
@@ -578,7 +587,13 @@ pub async fn canon(w: &World) -> String {
     let reg: Vec<(u64, Vec<usize>)> = w.registered_in_epoch.borrow().iter().map(|(e, s)| (*e, s.iter().copied().collect())).collect();
     let mut buffered = w.raw_rows("select signed_entity_type_id, party_id from buffered_single_signature order by 1, 2");
     buffered.sort();
+    // the stored epoch settings from the previous epoch on (what future certificates will carry)
+    let settings = w.raw_rows(&format!(
+        "select epoch_setting_id, protocol_parameters from epoch_setting where epoch_setting_id >= {} order by 1",
+        (*tp.epoch).saturating_sub(1)
+    ));
     json!({"st": w.state(), "e": *tp.epoch, "i": tp.immutable_file_number, "certs": certs, "om": oms, "se": entities, "reg": reg, "buf": buffered, "restarts": w.restarts.min(1),
+           "cfg": w.cfg_variant, "settings": settings,
            "pending_artifact": w.deps.signed_entity_type_lock.has_locked_entities().await}).to_string()
 }
 
@@ -727,6 +742,8 @@ pub fn replay_interleaved(
         for (i, ev) in history.iter().enumerate() {
             if matches!(ev, Ev::Restart) {
                 w.restart().await;
+            } else if matches!(ev, Ev::Reconfigure) {
+                w.reconfigure().await;
             } else {
                 let mut log_a = vec![];
                 let mut log_b = vec![];
